@@ -19,6 +19,7 @@ RULE = (
     "ARM64 pc-relative literal loads). 20% of the modules start without "
     "a symbolicExpressionSizes table (patch-created entries only)."
     " Second module in the IR as in C01: its symbolic expressions and offset-keyed tables must be unchanged."
+    " 8% of the modules are big-endian MIPS32 ELF (%hi/%lo operands carry HI/LO attributes)."
 )
 ASSUMPTIONS = [
     "annotations keyed at offset == block size are not generated (they annotate no byte)",
@@ -31,7 +32,7 @@ REQUIRED_COUNTERS = ["applies", "expressions_compared",
 
 
 def gen_case(rng, tier, index):
-    case = rwbase.gen_case(rng, tier, index)
+    case = rwbase.gen_case(rng, tier, index, mips_p=0.08)
     if rng.random() < 0.2:
         # a module that has no symbolicExpressionSizes table: the sizes of
         # what patches add must still be recorded, for every patch
